@@ -2,7 +2,13 @@
 
 BASELINE_OFF_CMD = "for m in . ./lib/github.com/tendermint/ed25519 ./lib/golang.org/x/crypto ./lib/golang.org/x/net; do (cd /repo/$m && GOFLAGS=-mod=mod go test -json -vet=off -count=1 -timeout 25m ./...); done"
 
-HOOK_COMMITS = []
+HOOK_COMMITS = [
+    "e130613c6118b2bccc044c1295555ecbc3b1fc83",  # protocol.Chain accessors (Casper(), OrphanCount)
+    "dca40b7b43cfa90413d800325ceb85edb6e48918",  # database store constructor with small caches; DHT table wrapper
+    "ca6a8d0d97301c593089a216372d29876c9942e5",  # account utxo keeper wrapper
+    "dd87a44dfd89f0fe61078668f4918d67c4282bdf",  # TxPool snapshot and limits
+    "03e20765e0c05ea152255cc016f7598aa345ce2f",  # netsync message decode / receive entry points
+]
 
 NOTES = ("One technique family: deterministic simulation with fault injection. bin/check <id> rebuilds the engine from /repo's "
          "working tree with -tags verif, runs seeded simulated histories in worker processes, confirms each violation by replay in a "
